@@ -31,6 +31,9 @@ struct St {
     wait_any: Vec<bool>,
     /// consecutive read-only points of each thread (an un-annotated busy-wait shows up as an unbounded run of loads)
     ro_streak: Vec<u32>,
+    /// consecutive annotated wait calls of a thread with no state-changing step of its own in between (impatient mode)
+    spin_run: Vec<u32>,
+    spin_seen: Vec<u64>,
     choices: Vec<usize>,
     pos: usize,
     decisions: Vec<Decision>,
@@ -65,7 +68,7 @@ fn others_progress(st: &St, id: usize) -> u64 {
 }
 
 fn read_only(kind: &str) -> bool {
-    matches!(kind, "load" | "ep_load" | "arc_count")
+    matches!(kind, "load" | "ep_load" | "arc_count" | "spin_retry")
 }
 
 fn is_enabled(st: &St, t: usize) -> bool {
@@ -91,6 +94,30 @@ enum Why {
 const SPIN_STREAK: u32 = 64;
 
 fn sched(ctl: &Arc<Ctl>, id: usize, mut why: Why, mut kind: &'static str) {
+    // Impatient mode (see `IMPATIENT`): an annotated wait is, for its first K calls in a row, an ordinary point that
+    // returns at once — in reality a spinning thread keeps running whether or not anybody else makes progress, so a wait
+    // loop that gives up after a bounded number of retries must be able to reach its bound while another thread is
+    // descheduled in the middle of an operation. Only after K fruitless retries does the wait block as usual.
+    {
+        let k = IMPATIENT.load(std::sync::atomic::Ordering::Relaxed);
+        if k > 0 {
+            let mut st = ctl.m.lock().unwrap();
+            if why == Why::Wait && kind == "spin" {
+                // retries are counted per stretch in which nobody else changed anything (somebody else's progress is
+                // what would have ended the wait anyway)
+                let p: u64 = st.wpoints.iter().enumerate().filter(|(i, _)| *i != id).map(|(_, p)| *p).sum();
+                if p != st.spin_seen[id] {
+                    st.spin_seen[id] = p;
+                    st.spin_run[id] = 0;
+                }
+                st.spin_run[id] += 1;
+                if st.spin_run[id] <= k {
+                    why = Why::Point;
+                    kind = "spin_retry";
+                }
+            }
+        }
+    }
     let mut st = ctl.m.lock().unwrap();
     if why == Why::Point {
         if read_only(kind) {
@@ -250,6 +277,8 @@ fn h_spin() {
     }
 }
 const RECLAIM_SPIN_LIMIT: u64 = 1 << 20;
+/// 0 = waits block until another thread makes progress (default); K > 0 = impatient mode, see `sched`.
+pub static IMPATIENT: std::sync::atomic::AtomicU32 = std::sync::atomic::AtomicU32::new(0);
 thread_local! {
     static RECLAIMING: RefCell<Option<u64>> = RefCell::new(None);
 }
@@ -353,7 +382,7 @@ pub fn body<S, F: Fn(&S) + Send + Sync + 'static>(f: F) -> Body<S> {
 fn run_one<S: Send + Sync + 'static>(state: Arc<S>, bodies: &[Body<S>], choices: Vec<usize>, horizon: usize) -> Exec {
     let n = bodies.len();
     let ctl = Arc::new(Ctl {
-        m: Mutex::new(St { running: usize::MAX - 1, done: vec![false; n], waiting_since: vec![None; n], wait_mark: vec![0; n], points: vec![0; n], wpoints: vec![0; n], wait_any: vec![false; n], ro_streak: vec![0; n], choices, pos: 0, decisions: vec![], abort: None, horizon }),
+        m: Mutex::new(St { running: usize::MAX - 1, done: vec![false; n], waiting_since: vec![None; n], wait_mark: vec![0; n], points: vec![0; n], wpoints: vec![0; n], wait_any: vec![false; n], ro_streak: vec![0; n], spin_run: vec![0; n], spin_seen: vec![u64::MAX; n], choices, pos: 0, decisions: vec![], abort: None, horizon }),
         cv: Condvar::new(),
     });
     let panics = Arc::new(Mutex::new(Vec::new()));
